@@ -122,9 +122,11 @@ impl Validator {
                 }
             }
             if self.has_constraint_reference(&key) {
-                match self.tlds.remove(&key).ok_or_else(|| LinkerError {
+                // The definition stays in scope while its constraints are linked, as
+                // they may refer to its own named numbers or enumerals
+                match self.tlds.get(&key).cloned().ok_or_else(|| LinkerError {
                     pdu: Some(key.clone()),
-                    details: "Could not find toplevel declaration to remove!".into(),
+                    details: "Could not find toplevel declaration to link!".into(),
                     kind: LinkerErrorType::MissingDependency,
                 }) {
                     Ok(mut tld) => {
